@@ -43,14 +43,17 @@ def main() -> int:
     # ---- S0: tables + build
     try:
         gen_tables.regenerate()
+        tables_ok = True
     except Exception as e:  # source changed beyond what the translator understands
+        tables_ok = False   # the tie between source text and theorems is lost: counts as a broken obligation
         ctx.notes.append(f"gen_tables failed: {e!r}")
-        ctx.build_log += f"gen_tables failed: {e!r}\n"
+        ctx.build_log += f"translator (gen_tables) failed on the current source: {e!r}\n"
     ok_drv, log1 = core.lake_build(["fcdrv"])
     ctx.driver_ok = ok_drv
     ok_prf, log2 = (False, "no Props file")
     if os.path.exists(core.props_file(prop)):
         ok_prf, log2 = core.lake_build([f"FcProofs.Props.{prop}"])
+    ok_prf = ok_prf and tables_ok
     ctx.proofs_ok = ok_prf
     ctx.build_log += ("" if ok_drv else log1[-4000:]) + ("" if ok_prf else log2[-4000:])
 
